@@ -16,6 +16,7 @@ import (
 	"net"
 	"net/http"
 	"regexp"
+	"runtime"
 	"sort"
 	"strings"
 	"sync"
@@ -24,6 +25,7 @@ import (
 
 	req "github.com/imroc/req/v3"
 	"github.com/imroc/req/v3/internal/testcert"
+	"github.com/imroc/req/v3/pkg/altsvc"
 	"github.com/imroc/req/v3/verifharness/hk"
 	"github.com/quic-go/quic-go"
 	qh3 "github.com/quic-go/quic-go/http3"
@@ -83,6 +85,8 @@ func chunksOf(tag string, kind string) []string {
 		n, pad = 2, 20000
 	case "slow":
 		n, pad = 5, 3000
+	case "earlypart":
+		n, pad = 3, 700
 	}
 	var out []string
 	for j := 0; j < n; j++ {
@@ -272,6 +276,43 @@ func coqRLE(b []byte) string {
 	return "(" + strings.Join(segs, " ++ ") + ")"
 }
 
+// perturbCtx is a request context that yields the processor (sometimes for a few dozen
+// microseconds) whenever the library looks a value up in it - trace hooks, dumper lookup,
+// retry state: schedule perturbation at exactly the points where the library runs between
+// two of its own critical sections.  It changes no value and no deadline.
+type perturbCtx struct {
+	context.Context
+	n *uint32
+}
+
+func (p perturbCtx) Value(key interface{}) interface{} {
+	if atomic.AddUint32(p.n, 1)%4 == 0 {
+		time.Sleep(30 * time.Microsecond)
+	} else {
+		runtime.Gosched()
+	}
+	return p.Context.Value(key)
+}
+
+var perturbCounter uint32
+
+// doTaggedErr is doTaggedBody plus the text of the error, if the exchange failed.
+func doTaggedErr(c *req.Client, base, tag, kind, round string, clone bool, dump bool) (problem string, proto string, errored bool, body string, errText string) {
+	var slot string
+	lastErr.Store(tag, &slot)
+	defer lastErr.Delete(tag)
+	problem, proto, errored, body = doTaggedBody(c, base, tag, kind, round, clone, dump)
+	return problem, proto, errored, body, slot
+}
+
+var lastErr sync.Map // tag -> *string
+
+func noteErr(tag string, err error) {
+	if v, ok := lastErr.Load(tag); ok && err != nil {
+		*(v.(*string)) = err.Error()
+	}
+}
+
 var tagRe = regexp.MustCompile(`(?:h1|h2|h3|alt|w|h3two)-\d+-\d+-(?:g\d+-i\d+|clone-\d+)`)
 
 // dumpProblem: the request-level dump (a buffer owned by the library) of one exchange must
@@ -298,6 +339,9 @@ func doTaggedBody(c *req.Client, base, tag, kind, round string, clone bool, dump
 		}()
 	}
 	rq := c.R().SetHeader("X-Tag", tag).SetHeader("X-Round", round)
+	if !clone {
+		rq.SetContext(perturbCtx{context.Background(), &perturbCounter})
+	}
 	if clone {
 		rq.SetHeader("X-Clone", "1")
 	}
@@ -319,6 +363,7 @@ func doTaggedBody(c *req.Client, base, tag, kind, round string, clone bool, dump
 	}
 	resp, err := rq.Send(method, base+"/?k="+kind)
 	if err != nil {
+		noteErr(tag, err)
 		return "", "", true, ""
 	}
 	if dump {
@@ -349,6 +394,7 @@ func doTaggedBody(c *req.Client, base, tag, kind, round string, clone bool, dump
 	}
 	got, rerr := resp.ToString()
 	if rerr != nil {
+		noteErr(tag, rerr)
 		return "", proto, true, ""
 	}
 	if got != want {
@@ -516,7 +562,10 @@ func phaseH1(cr *childResult, seed uint64, quick bool) {
 				}
 			}
 		}()
-		wg.Wait()
+		if !waitOrStall(&wg, 75*time.Second) {
+			stallExit(cr, hk.Failure{Sig: "stall:h1", What: "callers of an HTTP/1.1 round are still blocked after 75 s (a round takes well under a second): requests hang for ever",
+				Input: map[string]interface{}{"round": roundID, "cfg": cfg}})
+		}
 		close(stop)
 		bg.Wait()
 		emit(req.VerifPoolSnapshot(t)) // quiescent point
@@ -645,7 +694,7 @@ func runMux(cr *childResult, rng *hk.Rand, c *req.Client, base string, o *origin
 				withDump := lr.Chance(25)
 				atomic.AddInt64(&started, 1)
 				defer atomic.AddInt64(&finished, 1)
-				problem, proto, errored, body := doTaggedBody(c, base, tag, kind, roundID, false, withDump)
+				problem, proto, errored, body, errText := doTaggedErr(c, base, tag, kind, roundID, false, withDump)
 				if withDump {
 					mu.Lock()
 					cr.count(label + ".requests_with_dump")
@@ -658,6 +707,11 @@ func runMux(cr *childResult, rng *hk.Rand, c *req.Client, base string, o *origin
 				}
 				if errored {
 					cr.count(label + ".requests_errored")
+					// the origins of these phases answer every request and nothing closes a
+					// connection in use: a caller that gets an error instead of its response
+					// did not "receive the response to its own request"
+					cr.fail(hk.Failure{Sig: "error:" + label + ":" + kind, What: "a request on a multiplexed connection failed although the origin answers every request (stream refused / connection torn down by a protocol error?)",
+						Input: map[string]interface{}{"round": roundID, "tag": tag, "kind": kind}, Got: errText})
 				} else {
 					cr.count(label + ".requests_ok")
 					cr.count(label + ".proto=" + proto)
@@ -672,7 +726,10 @@ func runMux(cr *childResult, rng *hk.Rand, c *req.Client, base string, o *origin
 			}
 		}(g)
 	}
-	wg.Wait()
+	if !waitOrStall(&wg, 100*time.Second) {
+		stallExit(cr, hk.Failure{Sig: "stall:" + label, What: "callers on a multiplexed connection are still blocked after 100 s: requests hang for ever",
+			Input: map[string]interface{}{"round": roundID}})
+	}
 	close(stop)
 	samplers.Wait()
 	// quiescent point: every caller has returned and read its body.  The stream table and the
@@ -828,6 +885,8 @@ func phaseH3(cr *childResult, seed uint64, quick bool) {
 					}
 					if errored {
 						cr.count("h3two.requests_errored")
+						cr.fail(hk.Failure{Sig: "error:h3two:" + kind, What: "a request failed while CloseIdleConnections ran concurrently (a cached HTTP/3 connection in use must not be closed)",
+							Input: map[string]interface{}{"round": roundID, "tag": tag, "kind": kind}})
 					} else {
 						cr.count("h3two.requests_ok")
 						cr.count("h3two.proto=" + proto)
@@ -850,7 +909,9 @@ func phaseH3(cr *childResult, seed uint64, quick bool) {
 			}
 		}()
 		close(start)
-		wg.Wait()
+		if !waitOrStall(&wg, 100*time.Second) {
+			stallExit(cr, hk.Failure{Sig: "stall:h3two", What: "callers of two HTTP/3 authorities are still blocked after 100 s", Input: map[string]interface{}{"round": roundID}})
+		}
 		close(stop)
 		bg.Wait()
 		c.GetTransport().CloseIdleConnections()
@@ -872,6 +933,106 @@ func phaseH3(cr *childResult, seed uint64, quick bool) {
 		roundID := fmt.Sprintf("alt-%d-%d", seed, round)
 		// several hosts names for the same origin would need DNS; one authority, many callers
 		runMux(cr, rng, c, "https://"+o2.addr, o2, "altsvc", roundID, perRound*2, rng.Range(6, 12), "")
+		c.GetTransport().CloseIdleConnections()
+	}
+	altJarStress(cr, rng, seed, rounds)
+}
+
+// altJarStress: (c) the Alt-Svc cache with entries whose max-age has run out.  Direct use of
+// the public jar from many goroutines (expired and live entries, tagged by authority), and a
+// client whose jar holds an EXPIRED entry for the origin while N callers send requests at once
+// (every one of them consults the jar, which drops the entry).  Oracles: an expired entry is
+// never returned, an entry is only returned for the authority it was stored under, every
+// caller gets its own response; the race detector watches.
+func altJarStress(cr *childResult, rng *hk.Rand, seed uint64, rounds int) {
+	jar := altsvc.NewAltSvcJar()
+	var wg sync.WaitGroup
+	var mu sync.Mutex
+	for g := 0; g < 8; g++ {
+		wg.Add(1)
+		lr := rng.Fork()
+		go func(g int) {
+			defer wg.Done()
+			for i := 0; i < 400; i++ {
+				addr := fmt.Sprintf("host%d.test:443", lr.Intn(4))
+				switch lr.Intn(3) {
+				case 0:
+					jar.SetAltSvc(addr, &altsvc.AltSvc{Protocol: "h3", Host: addr, Port: "443", Expire: time.Now().Add(-time.Second)})
+				case 1:
+					jar.SetAltSvc(addr, &altsvc.AltSvc{Protocol: "h3", Host: addr, Port: "443", Expire: time.Now().Add(time.Hour)})
+				default:
+					if as := jar.GetAltSvc(addr); as != nil {
+						msg := ""
+						if as.Host != addr {
+							msg = fmt.Sprintf("entry stored for %s returned for %s", as.Host, addr)
+						} else if as.Expire.Before(time.Now().Add(-500 * time.Millisecond)) {
+							msg = "an expired entry was returned"
+						}
+						if msg != "" {
+							mu.Lock()
+							cr.fail(hk.Failure{Sig: "altsvcjar:" + strings.SplitN(msg, " ", 3)[1], What: "Alt-Svc cache: " + msg, Input: map[string]interface{}{"seed": seed, "addr": addr}})
+							mu.Unlock()
+						}
+					}
+				}
+			}
+		}(g)
+	}
+	wg.Wait()
+	cr.count("altjar.direct_ops=3200")
+
+	o, err := newOrigin(0, seed+21, false)
+	if err != nil {
+		cr.Notes = append(cr.Notes, "altjar: listen failed: "+err.Error())
+		return
+	}
+	defer o.srv.Close()
+	for round := 0; round < rounds+2; round++ {
+		c := req.C().EnableHTTP3().SetTimeout(90 * time.Second)
+		j := req.VerifAltSvcJar(c.GetTransport())
+		if j == nil {
+			cr.Notes = append(cr.Notes, "altjar: HTTP/3 support not available")
+			return
+		}
+		roundID := fmt.Sprintf("alt-%d-%d", seed, 1000+round)
+		start := make(chan struct{})
+		var wg sync.WaitGroup
+		for g := 0; g < 8; g++ {
+			wg.Add(1)
+			go func(g int) {
+				defer wg.Done()
+				<-start
+				for i := 0; i < 5; i++ {
+					if i%2 == 0 && g == 0 {
+						// the entry "learned earlier" runs out again and again
+						j.SetAltSvc(o.addr, &altsvc.AltSvc{Protocol: "h3", Port: "1", Expire: time.Now().Add(-time.Minute)})
+					}
+					tag := fmt.Sprintf("%s-g%d-i%d", roundID, g, i)
+					problem, _, errored := doTagged(c, "http://"+o.addr, tag, "get", roundID, false)
+					mu.Lock()
+					if problem != "" {
+						cr.fail(hk.Failure{Sig: "crosstalk:altjar", What: "caller did not receive the response to its own request (expired Alt-Svc entry in the cache)",
+							Input: map[string]interface{}{"round": roundID, "tag": tag}, Got: problem, Want: tag})
+					}
+					if errored {
+						cr.count("altjar.requests_errored")
+						cr.fail(hk.Failure{Sig: "error:altjar", What: "a request failed although the only Alt-Svc entry for its origin had expired (an expired alternative must not be used)",
+							Input: map[string]interface{}{"round": roundID, "tag": tag}})
+					} else {
+						cr.count("altjar.requests_ok")
+					}
+					mu.Unlock()
+				}
+			}(g)
+		}
+		j.SetAltSvc(o.addr, &altsvc.AltSvc{Protocol: "h3", Port: "1", Expire: time.Now().Add(-time.Minute)})
+		close(start)
+		if !waitOrStall(&wg, 100*time.Second) {
+			stallExit(cr, hk.Failure{Sig: "stall:altjar", What: "callers are still blocked after 100 s (expired Alt-Svc entry in the cache)", Input: map[string]interface{}{"round": roundID}})
+		}
+		if as := j.GetAltSvc(o.addr); as != nil {
+			cr.fail(hk.Failure{Sig: "altsvcjar:expired-kept", What: "Alt-Svc cache still returns an entry that expired a minute ago", Input: map[string]interface{}{"round": roundID}})
+		}
 		c.GetTransport().CloseIdleConnections()
 	}
 }
